@@ -244,18 +244,14 @@ class ReplacementFrontend(ConstrainedFrontend):
             return super()._concrete_constraint(er)
         return super()._concrete_constraint(e)
 
-    def _swallowed(self, original, replaced):
+    @staticmethod
+    def _swallowed(original, replaced):
         """
-        Whether the replacements removed a variable from a constraint that no replacement pins down by itself.
+        Whether the replacements removed a variable from a constraint.
         """
         if not isinstance(original, Base):
             return False
-        lost = original.variables - (replaced.variables if isinstance(replaced, Base) else frozenset())
-        if not lost:
-            return False
-        return any(
-            leaf.symbolic and leaf.variables & lost and self._replacement(leaf).symbolic for leaf in original.leaf_asts()
-        )
+        return bool(original.variables - (replaced.variables if isinstance(replaced, Base) else frozenset()))
 
     def _add(self, constraints, invalidate_cache=True):
         if self._auto_replace:
@@ -291,9 +287,9 @@ class ReplacementFrontend(ConstrainedFrontend):
                         self.add_replacement(old, rold.intersection(new))
 
         added = super()._add(constraints)
-        # A replacement may turn the very constraint it was learned from into a constant (y + 2 == 2 becomes 2 == 2).
-        # That is fine where a variable itself is replaced, since every later query has it replaced as well; but
-        # replacing y + 2 says nothing about y, so such a constraint goes to the solver as it is.
+        # A replacement may turn the very constraint it was learned from into a constant (y + 2 == 2 becomes 2 == 2,
+        # y == 1 becomes 1 == 1).  Replacing y + 2 says nothing about y, and constraints the solver got before y was
+        # replaced still mention y: a constraint that loses a variable this way goes to the solver as it was written.
         cr = tuple(c if self._swallowed(c, rc) else rc for c, rc in zip(added, self._replace_list(added), strict=True))
         if not self._allow_symbolic and any(c.symbolic for c in cr):
             raise ClaripyFrontendError(
